@@ -186,7 +186,14 @@ Ltac step_cases H :=
   match type of H with (if crashed ?s then _ else _) = _ =>
     let C := fresh "Hnc" in destruct (crashed s) eqn:C; [discriminate H|] end;
   match type of H with match ?l with _ => _ end = _ => destruct l end;
-  brk H; inversion H; subst; clear H; facts.
+  brk H; inversion H; subst; clear H; facts;
+  try match goal with E : _ fixed = false |- _ => simpl in E; discriminate E end.
+
+(* Hv : v_fb_fix v = true  is split and used up in  H : step v s l = Some s' *)
+Ltac use_fb_fix Hv H :=
+  let Hv2 := fresh "Hv2" in
+  unfold v_fb_fix in Hv; apply andb_true_iff in Hv; destruct Hv as [Hv Hv2];
+  unfold step in H; rewrite ?Hv, ?Hv2 in H.
 
 Ltac pose_sums w :=
   repeat match goal with
